@@ -248,8 +248,12 @@ func (c Cap) RectBound() Rect {
 		sinC := math.Cos(latitude(c.center).Radians())
 		if sinA <= sinC {
 			angleA := math.Asin(sinA / sinC)
-			lng.Lo = math.Remainder(longitude(c.center).Radians()-angleA, math.Pi*2)
-			lng.Hi = math.Remainder(longitude(c.center).Radians()+angleA, math.Pi*2)
+			// IntervalFromEndpoints maps an endpoint of exactly -Pi (which
+			// Remainder can return) to +Pi; a raw -Pi would make the
+			// interval invalid and exclude longitude 180 degrees.
+			lng = s1.IntervalFromEndpoints(
+				math.Remainder(longitude(c.center).Radians()-angleA, math.Pi*2),
+				math.Remainder(longitude(c.center).Radians()+angleA, math.Pi*2))
 		}
 	}
 	return Rect{lat, lng}
